@@ -403,3 +403,9 @@ package st
 //@   opt: grow-only=gone
 //@   requires p != nil
 //@   modifies *
+//@ func DecodedFieldMayChange
+//@   props: S01
+//@   level: PA
+//@   nosafe
+//@   modifies *
+//@   ensures [must-fail-decoder-writes] result == ""
